@@ -30,8 +30,10 @@ for pid in sys.argv[1:]:
     suite = tail(os.path.join(base, 'suite.log'), 2)
     patch = open(os.path.join(base, 'patch.diff'), encoding='utf-8').read()
     info = NEEDS.get(pid, {})
+    prop = pid.split('-')[0]
     meta = {
-        'property': pid,
+        'property': prop,
+        'round': int(pid.split('-')[1]) if '-' in pid else 1,
         'author': 'independent sub-agent given only the property text and a scratch worktree (nothing from /verif)',
         'files_changed': sorted(set(re.findall(r'^\+\+\+ b/(\S+)', patch, re.M))),
         'breaks': info.get('breaks'),
@@ -40,7 +42,7 @@ for pid in sys.argv[1:]:
             'demo_on_clean_tree': (tail(os.path.join(base, 'demo_clean.log'), 1) or ['?'])[0][:200],
             'demo_with_change': (tail(os.path.join(base, 'demo_seeded.log'), 1) or ['?'])[0][:200],
             'existing_suite_with_change': suite,
-            'commands': [f'tools/seedcheck.sh {pid} <agent worktree> quick', f'tools/seedsuite.sh {pid}'],
+            'commands': [f'tools/seedcheck.sh {prop} <agent worktree> quick', f'tools/seedsuite.sh {pid}'],
         },
         'check_result': checks,
         'caught': any(c['verdict'] == 'VIOLATED' for c in checks.values()),
